@@ -7,7 +7,7 @@ use super::sendbody::send_body_flow;
 use crate::engine::{guarded, pattern, Report, Tier, Violation};
 use crate::refmodel::chunked::decode_strict;
 
-pub const RULE: &str = "every output length n in 0..=3*10248+64 (thorough: 0..=10*10248+64) plus boundary set {k*10248+d, 16^j+d}: m = calculate_max_input(n) on the real SendBody flow, then the real write(input[..m], out[..n]); chunked and length-delimited bodies; for length-delimited bodies additionally Content-Length {0,1,100,20000} x already-accounted {0,1,half,all} x n up to 70000 (the advertised size is n whatever remains); the same check from non-initial states: after an earlier write of {0 (an end signal, only into buffers too small for the terminator),1,3,17} input bytes into a buffer of 0..=24 bytes in the same SendBody state, and for a chunked body selected by a mixed-case Transfer-Encoding: Chunked next to a Content-Length header, for every body-less method converted with send-body-despite-method without framing header, for an HTTP/1.0 POST without Content-Length, and for a sized body on a flow obtained through a redirect whose original declared a smaller length, n in 0..=300 u 4090..=4110 u 10240..=10270. distinct = distinct (mode, m>0, chunks emitted, hex digits of last chunk) classes";
+pub const RULE: &str = "every output length n in 0..=3*10248+64 (thorough: 0..=10*10248+64) plus boundary set {k*10248+d, 16^j+d}: m = calculate_max_input(n) on the real SendBody flow, then the real write(input[..m], out[..n]); chunked and length-delimited bodies; for length-delimited bodies additionally Content-Length {0,1,100,20000} x already-accounted {0,1,half,all} x n up to 70000 (the advertised size is n whatever remains); the same check from non-initial states: after an earlier write of {0 (an end signal, only into buffers too small for the terminator),1,3,17} input bytes into a buffer of 0..=24 bytes in the same SendBody state, and for a chunked body selected by a mixed-case Transfer-Encoding: Chunked next to a Content-Length header, for every body-less method converted with send-body-despite-method without framing header, for an HTTP/1.0 POST without Content-Length, and for a sized body on a flow obtained through a redirect whose original declared a smaller length, n in 0..=300 u 4090..=4110 u 10240..=10270; the same n once more from the initial state with the library's logging at level Trace (payload bytes 0x00..=0xfa pass through the hex dump). distinct = distinct (mode, m>0, chunks emitted, hex digits of last chunk) classes";
 
 const CHUNK: usize = 10 * 1024 + 8;
 
@@ -254,6 +254,23 @@ pub fn run(tier: Tier) -> Report {
             rep.violation(Violation { key: format!("C18:{}:{}", if chunked { "chunked" } else { "sized" }, k), ord: 80_000_000 + n as u64, what: format!("{}{}", what, ctx), replay: json!({"n": n, "chunked": chunked, "variant": variant, "prior": prior.map(|p| json!([p.0, p.1]))}) });
         }
     }
+    // once more with the library's logging at level Trace: every buffer written is hex-dumped then
+    // (payload bytes cover 0x00..=0xfa, so non-ASCII and control bytes pass through the dump)
+    {
+        crate::engine::logging(true);
+        let before = crate::engine::LOG_LINES.load(std::sync::atomic::Ordering::Relaxed);
+        let res: Vec<(usize, bool, Option<(String, String)>)> = small_ns.par_iter().flat_map(|&n| [true, false].into_par_iter().map(move |ch| (n, ch))).map(|(n, ch)| (n, ch, one(n, ch).1)).collect();
+        crate::engine::logging(false);
+        rep.guard("log records were produced in the logging pass", crate::engine::LOG_LINES.load(std::sync::atomic::Ordering::Relaxed) > before);
+        rep.extra("with_logging", json!(res.len()));
+        for (n, chunked, fail) in res {
+            rep.evaluations += 1;
+            rep.transitions += 2;
+            if let Some((k, what)) = fail {
+                rep.violation(Violation { key: format!("C18:{}:{}", if chunked { "chunked" } else { "sized" }, k), ord: 90_000_000 + n as u64, what: format!("{} [library logging at level Trace]", what), replay: json!({"n": n, "chunked": chunked, "logging": true}) });
+            }
+        }
+    }
     rep.guard("some n has a positive advertised maximum", false);
     rep.extra("n_values_per_mode", json!(ns.len()));
     rep.extra("n_max", json!(ns.last()));
@@ -268,6 +285,9 @@ pub fn replay(v: &Value) -> Result<Option<String>, String> {
     }
     let n = v["n"].as_u64().ok_or("n")? as usize;
     let chunked = v["chunked"].as_bool().ok_or("chunked")?;
+    if v["logging"].as_bool() == Some(true) {
+        crate::engine::logging(true);
+    }
     if v.get("variant").map(|x| x.is_string()).unwrap_or(false) {
         let prior = v["prior"].as_array().map(|a| (a[0].as_u64().unwrap_or(0) as usize, a[1].as_u64().unwrap_or(0) as usize));
         let (_, fail, _) = one_from(n, chunked, v["variant"].as_str().unwrap_or(""), prior);
